@@ -38,7 +38,7 @@ def build(seed, i, tier, readers=0, families=None, ctx=None, with_operands=True)
     kind = G.pick(rs, ["dict", "list"])
     nobj = rs.choice([1, 2, 2])
     cfg = {"prop": ID, "family": fam, "kind": kind, "wc": rs.random() < 0.5, "threading": True, "oracles": [],
-           "uuid_seed": rs.getrandbits(32), "opcode": tier == "thorough" and rs.random() < 0.15}
+           "uuid_seed": rs.getrandbits(32), "opcode": rs.random() < (0.15 if tier == "thorough" else 0.06)}
     init = _thr.init_content(kind, fresh)
     pre = [{"t": "new_res", "family": fam, "kind": kind, "init": init}]
     rebound = with_operands and nobj >= 2 and rs.random() < 0.12
